@@ -816,3 +816,39 @@ def check(tier: str) -> int:
             if not flags_b.get(need):
                 rep.notes.append(f"generator self-check: e2e predicate {need} never reached")
     return rep.finish()
+
+
+def replay(path: str) -> int:
+    """bin/replay C17 <file>: re-executes a stored case on the current tree (and on the model for pump cases)."""
+    d = json.load(open(path))
+    kind = d.get("kind")
+    if kind in ("pump", "pump-monitor", "tie") and (d.get("case") or {}).get("case", d.get("case")):
+        j = d["case"]["case"] if "case" in d["case"] else d["case"]
+        c = PumpCase.from_json(j)
+        asyncio.run(c.run())
+        exe = core.build_driver("tlspump", "TlsPump")
+        m = core.run_driver(exe, [c.flat()])[0]
+        print(json.dumps(c.to_json()["readable"], indent=1))
+        print("implementation:", c.outs)
+        print("model         :", m)
+        for msg in c.mon:
+            print("MONITOR:", msg)
+        return 1 if (c.mon or c.outs != m) else 0
+    if kind in ("e2e", "e2e-monitor"):
+        import anyio
+        import c17_tls_e2e as E
+
+        sc = E.Scenario.from_json(d["scenario"])
+        certs = E.Certs()
+        out = anyio.run(E.run_scenario, sc, certs)
+        v, fl = E.monitors(sc, *out)
+        rc, rs = out[0], out[1]
+        print(json.dumps(sc.to_json()))
+        for r in (rc, rs):
+            print(f"{r.role}: handshake={E.exc_name(r.hs_exc)} received={len(r.got)} receive-loop={E.exc_name(r.recv_exc)} "
+                  f"after-data={E.exc_name(r.final_exc)} aclose={'ok' if r.close_done else E.exc_name(r.close_exc)}")
+        for msg in v:
+            print("MONITOR:", msg)
+        return 1 if v else 0
+    print(json.dumps(d, indent=1)[:4000])
+    return 0
